@@ -51,6 +51,9 @@ type mode struct {
 	// receiver republishes direct announcements on it (announce.WithResend);
 	// its own republication comes back on the topic and has to be ignored.
 	Resend bool
+	// MaxAsync: the subscriber limits announce-triggered syncs to one at a time
+	// (MaxAsyncConcurrency(1))
+	MaxAsync bool
 }
 
 // entriesKind: the sync is made through one of the entries entry points
@@ -69,6 +72,9 @@ func (m mode) String() string {
 	}
 	if m.Resend {
 		s += ",pubsub-topic-and-resend"
+	}
+	if m.MaxAsync {
+		s += ",max-async-1"
 	}
 	return s
 }
@@ -145,6 +151,9 @@ func newRunner(m mode) *runner {
 	opts := []dagsync.Option{dagsync.SegmentDepthLimit(m.Seg)}
 	if m.Retry {
 		opts = append(opts, dagsync.RetryableHTTPClient(1, time.Millisecond, 2*time.Millisecond))
+	}
+	if m.MaxAsync {
+		opts = append(opts, dagsync.MaxAsyncConcurrency(1))
 	}
 	stopPubsub := func() {}
 	switch {
@@ -367,6 +376,10 @@ func TestCheck(t *testing.T) {
 		for _, kind := range []string{"queried", "announce"} {
 			modes = append(modes, mode{Discovery: disc, Kind: kind, Seg: -1, L: L, Retry: true})
 		}
+	}
+	// announce-triggered syncs on a subscriber that runs one of them at a time
+	for _, disc := range []bool{true, false} {
+		modes = append(modes, mode{Discovery: disc, Kind: "announce", Seg: -1, L: L, MaxAsync: true})
 	}
 	// the entries entry points: a chain of entry chunks synced from its first
 	// chunk (all chunks, all links, one chunk)
